@@ -237,6 +237,12 @@ def check_case(case):
                 continue
             n_acc += 1
             w = np.asarray(out.w)
+            if pen == "PositiveConstraint" and fam in ("Logistic", "LogisticGroup", "Poisson", "Gamma", "Cox-breslow", "Cox-efron") \
+                    and not (out.stop <= sspec["tol"]):
+                # a positivity constraint does not make these losses coercive (separable data: no finite minimiser);
+                # a diverging, non-converged run is inconclusive, not a defect
+                n_incon += 1
+                continue
             if not (np.all(np.isfinite(w)) and math.isfinite(out.stop) and np.all(np.isfinite(out.obj))):
                 what = "coefficients" if not np.all(np.isfinite(w)) else ("stop_crit" if not math.isfinite(out.stop) else "objective history")
                 viol.append(Viol(dict(sig, kind="non-finite", what=what),
